@@ -39,7 +39,7 @@ def run(c):
     binary = c.go_build(HARNESS)
     if binary:
         gen(c, binary)
-    c.prove("SH.Props.C01", extra_files=["SH/Model/Delivery.lean", "SH/Lemmas/Delivery.lean", "SH/Gen/C01.lean"])
+    c.prove("SH.Props.C01", extra_files=["SH/Model/Delivery.lean", "SH/Lemmas/Delivery.lean", "SH/Lemmas/DeliveryLive.lean", "SH/Gen/C01.lean"])
     drv = c.driver(DRIVER)
     if binary and drv:
         rc, out = c.go_run(binary, [f"-n={c.n(240, 2400)}"], timeout=1500)
@@ -74,7 +74,14 @@ META = {
              "disk record), or in the body of a successful INSERT, or deliberately rejected/dropped; ack_after_insert_or_reject — at every "
              "point of every run every discard answer on the wire carries a second already inserted or deliberately rejected; "
              "erase_after_ack — whatever the operation, a flushed second that stops being held is inserted, rejected or in a deliberate-drop "
-             "set; answer_matches_sender — request ids never name two seconds. The invariant (lean/SH/Lemmas/Delivery.lean, SInv) is "
+             "set; answer_matches_sender — request ids never name two seconds; erase_trace (literal trace form of erase_after_ack) — for every "
+             "operation other than a process restart, a disk record that is gone afterwards was erased because THAT operation delivered an "
+             "answer with discard to the sender blocked on the request carrying the record's second, or because the second left the agent's "
+             "historic window (recorded drop); restart_erases_nothing — a restart reads every record back. LIVENESS (partial): "
+             "can_always_finish_partial — from every reachable state in which a second is the oldest entry of the historic queue, inside "
+             "the agent's window, its primary or spare replica alive and up, accepted into that replica's historic window with no other "
+             "historic bucket waiting, the explicit 3-op fault-free schedule finishOps(state) (pop, deliver, clock to oldest+shortWindow+3) "
+             "ends with the second in a successful INSERT. The invariant (lean/SH/Lemmas/Delivery.lean, SInv) is "
              "shown to be preserved by each of the 14 model operations. COMPONENT LEVEL, kernel-checked for all inputs of the modelled functions: (1) ack_after_insert_or_reject — the handler answers discard at once only "
              "for a second beyond the newest recent bucket or before oldest-historicWindow, a late recent second is answered WITHOUT discard, a "
              "second inside the window is always parked, and the bucket it is parked in is one this replica's ticker hands to an inserter "
@@ -96,8 +103,9 @@ META = {
              "runnable whenever the head of the historic queue can be popped, for every interleaving of clock, appends and consumers "
              "(wake_invariant, wake_sites_now); dropping the flush signal breaks it (decide witness); the real goroutines are run in real "
              "time on a second saved in the future before a restart (historic-sender-never-woken)."),
-    "note": ("PARTIAL: the liveness half is not proved: can_always_finish (from every reachable state a fault-free schedule inserts a held "
-             "in-window second) is stated as a comment only; it is exercised on the real code by the fault-free finishing phase of every case "
+    "note": ("PARTIAL: the liveness half is proved only for the sub-class of states of can_always_finish_partial; the full "
+             "can_always_finish (any way of being held: blocked sender, unread disk record, deeper queue position; historic backlog at the "
+             "replica; seconds inside the recent window; replicas that must come up first) is stated as a comment. It is exercised on the real code by the fault-free finishing phase of every case "
              "(sig not-delivered-after-recovery), by the wake-up tier, and by the wake-up invariant theorem. The safety half (no_silent_loss, "
              "ack_after_insert_or_reject, erase_after_ack) IS proved for all op lists of the model; the model's `lostMem` (seconds that "
              "existed only in memory when the agent process died) counts as a deliberate-loss set. Trusted/modelled: the rpc library (replaced by an "
